@@ -64,6 +64,8 @@ class Array:
         self.shim = vlib.build_shim()
         self.clock = BASE_TIME + 1000000   # controlled "now" (seconds), advanced by the driver
         self.store = {}                    # bytes -> value key
+        self.jbytes = {}                   # digest -> bytes of junk values seen on disk
+        self.jlen = {}
         self.ncmd = 0
         self.urandom = os.path.join(self.root, "urandom")
         self.make_dirs()
@@ -121,12 +123,14 @@ class Array:
     # ---- values
     def slen(self, v):
         """byte length of short value v: in 1..BS-1, fixed per value id"""
-        return 1 + (v * 379 + self.seed * 31) % (BS - 1)
+        return 1 + (v * 379) % (BS - 1)
 
     def vbytes(self, val):
         """val = v (int, full block) or ('s', v) short block or 'Z' (zero block) """
         if val == 'Z':
             return b"\0" * BS
+        if isinstance(val, (tuple, list)) and val[0] == 'J':
+            return self.jbytes[val[1]]
         if isinstance(val, (tuple, list)):
             return value_bytes(self.seed, val[1] + 1000000, self.slen(val[1]))
         return value_bytes(self.seed, val, BS)
@@ -147,7 +151,11 @@ class Array:
             return self.store[blk]
         if len(blk) == BS and blk == b"\0" * BS:
             return 'Z'
-        return ('J', hashlib.sha1(blk).hexdigest()[:10])
+        dig = hashlib.sha1(blk).hexdigest()[:10]
+        self.jbytes[dig] = blk
+        self.jlen[dig] = len(blk)
+        self.store[blk] = ('J', dig)
+        return ('J', dig)
 
     # ---- file operations (environment actions)
     def path(self, d, name):
@@ -365,6 +373,8 @@ class Array:
         a.root = newroot
         a.own_root = True
         a.store = dict(self.store)
+        a.jbytes = dict(self.jbytes)
+        a.jlen = dict(self.jlen)
         a.urandom = os.path.join(newroot, "urandom")
         # rewrite conf with the new paths
         a.conf = copy.deepcopy(self.conf)
